@@ -15,7 +15,9 @@ Queries == {"none", "query"}
 Frags == {"none", "frag"}
 \* the path itself: plain; with a ".." that follows a symbolic link to a directory (the file system, not string
 \* surgery, decides what that means); a relative "./stdout" (a file in the current directory, not the process stream)
-Paths == {"plain", "dotdot-after-symlink", "dot-slash-stdout"}
+\* escaped-*: percent escapes in the URL's path that a URL encoder would not produce itself (an escaped letter, an
+\* escaped slash, lower-case hex): the path opened is the decoded one
+Paths == {"plain", "dotdot-after-symlink", "dot-slash-stdout", "escaped-letter", "escaped-slash", "escaped-lowerhex", "escaped-space"}
 URLs == [scheme : Schemes, user : Users, host : Hosts, port : Ports, query : Queries, frag : Frags, path : Paths]
 \* a URL with user info or a port needs an authority, which needs a host or "//"; all combinations are
 \* expressible as text except: scheme "none" with an authority is written "//host/path"
